@@ -13,13 +13,13 @@ def copy_repo(dst):
     sh("rsync -a --exclude .git --exclude '*.o' --exclude '*.a' --exclude '*.so' --exclude '*.bin' --exclude bin/eav /repo/ %s/" % dst)
 
 def run_demo(root, demo):
-    sh("make static app >/dev/null 2>&1", cwd=root)
+    sh("make static app %s >/dev/null 2>&1" % os.environ.get("DEMO_MAKE", ""), cwd=root)
     shutil.copy(demo, root)
     name = os.path.basename(demo)
     env = dict(os.environ); env["LD_LIBRARY_PATH"] = root
     if name.endswith(".c"):
         exe = name[:-2]
-        rc, out = sh("cc -Iinclude -Isrc -I. %s libeav.a -lidn2 -lpthread -o %s 2>&1 && ./%s" % (name, exe, exe), cwd=root, env=env, timeout=600)
+        rc, out = sh("cc " + os.environ.get("DEMO_CC", "") + " -Iinclude -Isrc -I. %s libeav.a -lidn2 -lpthread -o %s 2>&1 && ./%s" % (name, exe, exe), cwd=root, env=env, timeout=600)
     else:
         rc, out = sh("sh ./%s" % name, cwd=root, env=env, timeout=900)
     return rc, out[-1500:]
